@@ -390,7 +390,11 @@ func cmdDriveDNSLists(args []string) error {
 	skippedBadfilter, nonEmpty := 0, 0
 	for q := 0; q < n; q++ {
 		h := hostnames[rnd.Intn(len(hostnames))]
-		switch rnd.Intn(6) {
+		roll := rnd.Intn(6)
+		if q < 3 {
+			h, roll = []string{"alias003.long.example", "alias200.long.example", "alias399.long.example"}[q], 9
+		}
+		switch roll {
 		case 0:
 			h = "www." + h
 		case 1:
